@@ -172,7 +172,20 @@ fn line_bounds(src: &str, off: usize) -> (usize, usize) {
 /// Rule-violating statements (one per documented rule that can be broken by inserting a statement).
 /// `{I}` = indentation. Every base function starts with `imm_x = 0` and `opt_v = Some(1)`; Pt, Color, helper_ok,
 /// takes_int are declared by the base program.
-pub const RULES: [(&str, &str); 26] = [
+pub const RULES: [(&str, &str); 39] = [
+    ("list-slice-end-not-int", "{I}zz_xs = [1, 2, 3]\n{I}zz_t = zz_xs[:\"two\"]\n"),
+    ("list-slice-start-not-int", "{I}zz_xs = [1, 2, 3]\n{I}zz_t = zz_xs[\"one\":]\n"),
+    ("list-slice-step-not-int", "{I}zz_xs = [1, 2, 3]\n{I}zz_t = zz_xs[::\"two\"]\n"),
+    ("list-slice-both-end-bad", "{I}zz_xs = [1, 2, 3]\n{I}zz_t = zz_xs[0:\"two\"]\n"),
+    ("str-slice-end-not-int", "{I}zz_s = \"hello\"\n{I}zz_t = zz_s[:\"two\"]\n"),
+    ("str-slice-start-not-int", "{I}zz_s = \"hello\"\n{I}zz_t = zz_s[1.5:]\n"),
+    ("list-index-not-int", "{I}zz_xs = [1, 2, 3]\n{I}zz_t = zz_xs[\"one\"]\n"),
+    ("str-index-not-int", "{I}zz_s = \"hello\"\n{I}zz_t = zz_s[True]\n"),
+    ("if-condition-not-bool", "{I}if imm_x:\n{I}    pass\n"),
+    ("while-condition-not-bool", "{I}while \"s\":\n{I}    pass\n"),
+    ("not-on-non-bool", "{I}zz_t = not imm_x\n"),
+    ("and-on-non-bool", "{I}zz_t = imm_x and True\n"),
+    ("for-over-non-iterable", "{I}for zz_i in imm_x:\n{I}    pass\n"),
     ("ctor-no-arguments", "{I}zz_tmp = Pt()\n"),
     ("ctor-wrong-field-type", "{I}zz_tmp = Pt(x=1, y=\"two\")\n"),
     ("unknown-name", "{I}zz_tmp = zz_unknown_name + 1\n"),
@@ -557,6 +570,72 @@ pub fn run(out: &mut Out, tier: &str, seed: u64, _scratch: &str) {
             if truth.is_empty() { "-".to_string() } else { truth.iter().map(|x| x.to_string()).collect::<Vec<_>>().join(",") },
             if truth_missing.is_empty() { "-".to_string() } else { truth_missing.join(",") }), &verdict);
     }
+    // (e2) default values: every parameter may carry a default of its own type or of another one; the checker must
+    // flag exactly the ill-typed defaults, at the default's own span (function and method declarations)
+    let n_def = if tier == "thorough" { 1500 } else { 300 };
+    let mut n_def_wrong = 0u64;
+    for di in 0..n_def {
+        let np = 1 + rng.below(4) as usize;
+        // (name, type, default: Option<(type of the value, text)>)
+        let mut ps: Vec<(String, &str, Option<(&str, &str)>)> = Vec::new();
+        for i in 0..np {
+            let t = PARAM_TYS[rng.below(PARAM_TYS.len() as u64 - 1) as usize]; // no trait-typed parameter
+            let d = match rng.below(4) {
+                0 => None,
+                1 => {
+                    let cands: Vec<&(&str, &str)> = TYS.iter().filter(|(n, _)| *n != t && !(*n == "int" && t == "float") && !(*n == "float" && t == "int")).collect();
+                    Some(**rng.pick(&cands))
+                }
+                _ => Some(*TYS.iter().find(|(n, _)| *n == t).unwrap()),
+            };
+            ps.push((format!("p{i}"), t, d));
+        }
+        let is_method = di % 2 == 1;
+        let mut src = String::from("model Pt:\n    x: int\n    y: int\n\nclass Box:\n    w: int\n    h: int\n\nclass Cat:\n    n: int\n\n");
+        let head = if is_method { "class Host:\n    v: int\n\n    def meth(self, " } else { "def callee(" };
+        src.push_str(head);
+        let mut spans: Vec<Option<(usize, usize)>> = Vec::new();
+        for (i, (n, t, d)) in ps.iter().enumerate() {
+            if i > 0 { src.push_str(", "); }
+            src.push_str(&format!("{n}: {t}"));
+            match d {
+                Some((_, text)) => {
+                    src.push_str(" = ");
+                    let a = src.len();
+                    src.push_str(text);
+                    spans.push(Some((a, src.len())));
+                }
+                None => spans.push(None),
+            }
+        }
+        src.push_str(if is_method { ") -> int:\n        return 0\n" } else { ") -> int:\n    return 0\n" });
+        src.push_str("\ndef main() -> None:\n    pass\n");
+        let verdict = match catch(|| check(&src)) {
+            Err(m) => format!("panic {m}"),
+            Ok(Err(m)) => format!("unparsable {}", m.replace(' ', "_")),
+            Ok(Ok(Ok(()))) => "accepted".to_string(),
+            Ok(Ok(Err(errs))) => {
+                let mut flagged: Vec<usize> = Vec::new();
+                let mut other: Option<String> = None;
+                for (m, s0, _) in &errs {
+                    match spans.iter().position(|sp| matches!(sp, Some((a, e)) if *s0 >= *a && *s0 < *e)) {
+                        Some(i) if m.starts_with("Type mismatch") => { if !flagged.contains(&i) { flagged.push(i); } }
+                        _ => { if other.is_none() { other = Some(m.replace(' ', "_")); } }
+                    }
+                }
+                flagged.sort();
+                match other {
+                    Some(o) => format!("other-error {o}"),
+                    None => format!("flag {}", flagged.iter().map(|x| x.to_string()).collect::<Vec<_>>().join(",")),
+                }
+            }
+        };
+        let truth: Vec<String> = ps.iter().enumerate().filter(|(_, (_, t, d))| matches!(d, Some((dt, _)) if dt != t)).map(|(i, _)| i.to_string()).collect();
+        if !truth.is_empty() { n_def_wrong += 1; }
+        out.case(&format!("c03 defaults {} {} {}", if is_method { "method" } else { "function" },
+            ps.iter().map(|(n, t, d)| format!("{n}:{t}:{}", d.map(|x| x.0).unwrap_or("-"))).collect::<Vec<_>>().join(";"),
+            if truth.is_empty() { "-".to_string() } else { truth.join(",") }), &verdict);
+    }
     // (f) trait adoption: a trait with @requires fields, required (bodyless) and default methods; an adopter (class,
     // model, or class inheriting part of its members) that has a subset of them, some with another type / signature
     let n_adopt = if tier == "thorough" { 1200 } else { 250 };
@@ -689,6 +768,6 @@ pub fn run(out: &mut Out, tier: &str, seed: u64, _scratch: &str) {
             if truth.is_empty() { "-".to_string() } else { truth.join(",") }), &verdict);
     }
     out.meta(&serde_json::json!({"adoption_programs": n_adopt}));
-    out.meta(&serde_json::json!({"scope_programs": n_scope, "match_programs": n_match, "call_programs": n_call, "call_programs_with_wrong_argument": n_call_wrong, "call_programs_with_arity_edit": n_call_arity}));
+    out.meta(&serde_json::json!({"scope_programs": n_scope, "match_programs": n_match, "call_programs": n_call, "call_programs_with_wrong_argument": n_call_wrong, "call_programs_with_arity_edit": n_call_arity, "default_programs": n_def, "default_programs_with_wrong_default": n_def_wrong}));
     out.meta(&serde_json::json!({"files": files.len(), "expr_edits": n_expr, "stmt_edits": n_stmt, "position_labels": labels}));
 }
